@@ -415,6 +415,7 @@ def established_case(ctx, scenario_idx, lose_at, partial, case):
         dcs = {}
         proxies = {}          # idx -> {'d': Outcome, 'obj': proxy or None, 'cb': Counter}
         pending_introspect = []
+        reentrant = []
         loss = Failure(ConnectionLost('verif established loss'))
         w = {'scenario': scenario_idx, 'steps': [[k, a] for k, a in steps], 'lose_at': lose_at, 'partial': partial}
 
@@ -443,6 +444,15 @@ def established_case(ctx, scenario_idx, lose_at, partial, case):
             elif kind == 'dc':
                 dcs[a['idx']] = Counter('dc%d' % a['idx'])
                 conn.notifyOnDisconnect(dcs[a['idx']])
+                if a['idx'] == 0 and scenario_idx % 3 == 0:
+                    # a listener that says goodbye on the dying connection (with and without a deadline): whatever it
+                    # starts must be finished off by the same loss and nothing may fire later
+                    def goodbye(c_, reason_):
+                        for t_ in (None, 3.0):
+                            kw_ = {'timeout': t_} if t_ else {}
+                            reentrant.append(clientfix.Outcome(c_.callRemote(
+                                '/obj', 'Goodbye', interface='org.verif.I', destination='org.verif.P', **kw_)))
+                    conn.notifyOnDisconnect(goodbye)
             elif kind == 'proxy-explicit':
                 attach_proxy(a['idx'], conn.getRemoteObject('org.verif.P', '/obj', explicit))
             elif kind == 'proxy-known':
@@ -520,6 +530,15 @@ def established_case(ctx, scenario_idx, lose_at, partial, case):
                                % (i, k, repr(v)[:100]), w, case)
                 else:
                     ctx.count('calls_failed_by_loss')
+        for o in reentrant:
+            if o.fired != 1 or o.results[0][0] != 'err' or not (o.results[0][1] is loss or o.results[0][1].value is loss.value):
+                w['reentrant'] = [[(k_, repr(v_.value if k_ == 'err' else v_)[:80]) for k_, v_ in x.results] for x in reentrant]
+                ctx.report('reentrant-call', 'a call issued by a connection-level disconnect callback was not finished off by '
+                           'the loss (fired %d times: %r)' % (o.fired, w['reentrant']), w, case)
+                break
+        else:
+            if reentrant:
+                ctx.count('reentrant_calls_failed_by_loss', len(reentrant))
         for i, cb in dcs.items():
             if len(cb.calls) != 1 or not (cb.calls[0][0] is conn and cb.calls[0][1] is loss):
                 ctx.report('connection-callback-count', 'connection-level disconnect callback %d ran %d times' % (
